@@ -524,7 +524,11 @@ func (s *c22Scn) doRequest() {
 	case disc:
 		// DisconnectInsufficientState: the connection is closed; a new one is opened and recovers
 		s.obs = append(s.obs, vApp("BErr", "1%nat"))
-		s.phase = "told-insufficient"
+		if wasPhase == "told-insufficient" {
+			s.phase = "told-insufficient"
+		} else {
+			s.phase = "told-unrecoverable" // no live subscription before: start over
+		}
 		s.sawErr = true
 		s.jev = append(s.jev, "  -> disconnect (insufficient state)")
 		s.reconnect()
